@@ -8,7 +8,7 @@ from ..model import Program, AnalysisError, own_nodes, norm, names_in, FuncInfo
 from ..cfg import cfg_of
 from ..guards import Env, walk, collect_atoms, valuations, describe_env
 from ..report import Report
-from ..util import callee_last, enclosing_stmt, parents, depends_on
+from ..util import callee_last, enclosing_stmt, parents, depends_on, helper_scopes
 from ..absint.domain import AV, const
 from ..absint.interp import Interp, Unsupported, SelfObj, PTResult, Opaque, as_av
 from ..absint import semiring_laws
@@ -191,14 +191,17 @@ def externals(rep: Report, prog: Program) -> None:
             keep = [e.atoms[t] for e in valuations([t]) if e.eval(cond) is True]
             rep.ob(rule, f.fq(), norm(a)[:90], f.loc(a), keep == [True], f"an external node is kept as einsum output iff ({t}) is {keep}")
             # restoration: vshape = [s if n in connected else 1 ...] then view(*vshape).expand(*eshape)
-            ife = [x for x in own_nodes(f.node) if isinstance(x, ast.IfExp) and isinstance(x.test, ast.Compare) and isinstance(x.test.ops[0], (ast.In, ast.NotIn)) and norm(x.test.comparators[0]) == conn]
+            # the restoring code may sit in f or in a helper f calls (parameters renamed to the caller's arguments)
+            scopes = helper_scopes(prog, f)
+            ife = [x for g, ren in scopes for x in own_nodes(g.node) if isinstance(x, ast.IfExp) and isinstance(x.test, ast.Compare) and isinstance(x.test.ops[0], (ast.In, ast.NotIn))
+                   and ren.get(norm(x.test.comparators[0]), norm(x.test.comparators[0])) == conn]
             okr = False
             for x in ife:
                 pos_is_size = not (isinstance(x.body, ast.Constant)) and isinstance(x.orelse, ast.Constant) and x.orelse.value == 1
                 neg_is_size = isinstance(x.body, ast.Constant) and x.body.value == 1
                 if isinstance(x.test.ops[0], ast.In) and pos_is_size: okr = True
                 if isinstance(x.test.ops[0], ast.NotIn) and neg_is_size: okr = True
-            views = [x for x in own_nodes(f.node) if isinstance(x, ast.Call) and callee_last(x) == 'expand' and isinstance(x.func.value, ast.Call) and callee_last(x.func.value) == 'view']
+            views = [x for g, ren in scopes for x in own_nodes(g.node) if isinstance(x, ast.Call) and callee_last(x) == 'expand' and isinstance(x.func.value, ast.Call) and callee_last(x.func.value) == 'view']
             rep.ob(rule, f.fq(), 'restore: view(size if connected else 1).expand(full shape)', f.loc(a), okr and bool(views),
                    'removed externals come back as broadcast axes of their domain size' if okr and views else 'the removed externals are not restored consistently with the removal test')
             guards = [n for n in own_nodes(f.node) if isinstance(n, ast.If) and isinstance(n.test, ast.Compare) and 'ndim' in norm(n.test) and 'len(' in norm(n.test)]
